@@ -266,6 +266,112 @@ fn run_case(t: &mut Tally, case: &Case, class: &str) {
     }
 }
 
+/// Requests whose instant lies in a year that needs more than four digits (or a sign) once converted to UTC: the
+/// text has a four-digit year in its own offset, the server clock sits on the other side of the year boundary, and
+/// the credential carries the scope date the way the library renders such years, so that the request travels as
+/// far as the key provider (which derives the key with the library's own chain) and the signature comparison.
+fn extreme_years(t: &mut Tally, seed: u64, n: u64) {
+    for i in 0..n {
+        let mut r = Rng::keyed(seed, "C08", "extreme-years", 0, i);
+        let upper = r.coin();
+        // the boundary instant and a request instant within 14 minutes beyond it
+        let boundary = if upper {
+            Inst::from_civil(10000, 1, 1, 0, 0, 0, 0)
+        } else {
+            Inst::from_civil(0, 1, 1, 0, 0, 0, 0)
+        };
+        let beyond = r.range(0, 14 * 60) as i64;
+        let t_req = if upper {
+            boundary.plus_s(beyond)
+        } else {
+            boundary.plus_s(-1 - beyond)
+        };
+        // server clock within the window, on either side of the boundary
+        let now = t_req.plus_s(r.range(0, 1700) as i64 - 850);
+        // spell the request instant with a four-digit year: a local offset that pulls it back inside 0000..9999
+        let off_min: i64 = if upper {
+            -(beyond / 60 + 1 + r.range(0, 600) as i64)
+        } else {
+            beyond / 60 + 1 + r.range(0, 600) as i64
+        };
+        let local = t_req.plus_s(off_min * 60);
+        let (y, mo, d, h, mi, sec) = local.civil();
+        if !(0..=9999).contains(&y) {
+            continue;
+        }
+        let sign = if off_min < 0 {
+            '-'
+        } else {
+            '+'
+        };
+        let (oh, om) = (off_min.abs() / 60, off_min.abs() % 60);
+        let ts = match r.below(3) {
+            0 => format!("{:04}{:02}{:02}T{:02}{:02}{:02}{}{:02}{:02}", y, mo, d, h, mi, sec, sign, oh, om),
+            1 => format!("{:04}-{:02}-{:02}T{:02}:{:02}:{:02}{}{:02}:{:02}", y, mo, d, h, mi, sec, sign, oh, om),
+            _ => format!("{:04}{:02}{:02}T{:02}{:02}{:02}.5{}{:02}", y, mo, d, h, mi, sec, sign, oh),
+        };
+        if ts.ends_with(&format!("{}{:02}", sign, oh)) && om != 0 {
+            continue;
+        }
+        let (uy, umo, ud, ..) = t_req.civil();
+        let scope_date = match r.below(4) {
+            // the rendering chrono gives such years, and plausible others
+            0 | 1 => {
+                if uy > 9999 {
+                    format!("+{}{:02}{:02}", uy, umo, ud)
+                } else {
+                    format!("-{:04}{:02}{:02}", -uy, umo, ud)
+                }
+            }
+            2 => format!("{}{:02}{:02}", uy, umo, ud),
+            _ => format!("{:04}{:02}{:02}", y, mo, d),
+        };
+        let region = *r.pick(&["us-east-1", "eu-west-3"]);
+        let service = *r.pick(&["s3", "service"]);
+        let sig = r.string_from("0123456789abcdef", 64);
+        let query = r.coin();
+        let mut w;
+        if query {
+            let cred = format!("AKIDEXAMPLE/{}/{}/{}/aws4_request", scope_date, region, service);
+            let uri = format!(
+                "/?X-Amz-Algorithm=AWS4-HMAC-SHA256&X-Amz-Credential={}&X-Amz-Date={}&X-Amz-SignedHeaders=host&X-Amz-Signature={}",
+                crate::rm::pct_encode(cred.as_bytes()),
+                crate::rm::pct_encode(ts.as_bytes()),
+                sig
+            );
+            w = Wire::new("GET", uri.as_bytes());
+            w.header("host", b"example.com");
+        } else {
+            w = Wire::new("GET", b"/");
+            w.header("host", b"example.com");
+            w.header(
+                if r.coin() {
+                    "x-amz-date"
+                } else {
+                    "date"
+                },
+                ts.as_bytes(),
+            );
+            w.header(
+                "authorization",
+                format!("AWS4-HMAC-SHA256 Credential=AKIDEXAMPLE/{}/{}/{}/aws4_request, SignedHeaders=host, Signature={}", scope_date, region, service, sig).as_bytes(),
+            );
+        }
+        let mut cfg = Cfg::basic(region, service, now);
+        cfg.s3 = r.coin();
+        let case = Case {
+            wire: w,
+            cfg,
+            script: Script::derive("wJalrXUtnFEMI/K7MDENG+bPxRfiCYEXAMPLEKEY"),
+        };
+        let rec = execute(&case);
+        if rec.calls() > 0 {
+            t.count("extreme_year_reached_key_lookup");
+        }
+        run_case(t, &case, "extreme-years");
+    }
+}
+
 /// Presigned (query-carrier) requests whose X-Amz-* values carry percent-encoded non-ASCII text: decimal digits of
 /// other scripts in every timestamp field, non-ASCII credential / signed-header / token text, invalid UTF-8.
 fn presigned_unicode(t: &mut Tally, seed: u64, n: u64) {
@@ -726,6 +832,41 @@ fn stable_api(t: &mut Tally) {
         let _ = format!("{} {:?}", io, io);
         n += 1;
         let _ = format!("{} {:?}", KeyTooLongError, KeyTooLongError);
+        // key derivation for every date chrono can represent, not only four-digit years
+        let key = KSecretKey::<44>::from_str("wJalrXUtnFEMI/K7MDENG+bPxRfiCYEXAMPLEKEY").ok();
+        let dates = [
+            chrono::NaiveDate::MIN,
+            chrono::NaiveDate::MAX,
+            chrono::NaiveDate::from_ymd_opt(-262143, 1, 1).unwrap_or(chrono::NaiveDate::MIN),
+            chrono::NaiveDate::from_ymd_opt(-10000, 2, 28).unwrap(),
+            chrono::NaiveDate::from_ymd_opt(-1000, 6, 15).unwrap(),
+            chrono::NaiveDate::from_ymd_opt(-1, 12, 31).unwrap(),
+            chrono::NaiveDate::from_ymd_opt(0, 1, 1).unwrap(),
+            chrono::NaiveDate::from_ymd_opt(0, 2, 29).unwrap(),
+            chrono::NaiveDate::from_ymd_opt(999, 9, 9).unwrap(),
+            chrono::NaiveDate::from_ymd_opt(9999, 12, 31).unwrap(),
+            chrono::NaiveDate::from_ymd_opt(10000, 1, 1).unwrap(),
+            chrono::NaiveDate::from_ymd_opt(99999, 12, 31).unwrap(),
+            chrono::NaiveDate::from_ymd_opt(262142, 12, 31).unwrap_or(chrono::NaiveDate::MAX),
+        ];
+        if let Some(key) = key {
+            for d in dates {
+                for (rg, sv) in [("us-east-1", "s3"), ("", ""), ("a/b", "c/aws4_request"), ("\u{0}\n", "\u{e9}")] {
+                    let kd = key.to_kdate(d);
+                    let kr = kd.to_kregion(rg);
+                    let ks = kr.to_kservice(sv);
+                    let kg = ks.to_ksigning();
+                    let a = key.to_ksigning(d, rg, sv);
+                    let b = kd.to_ksigning(rg, sv);
+                    let c = kr.to_ksigning(sv);
+                    let _ = key.to_kregion(d, rg);
+                    let _ = key.to_kservice(d, rg, sv);
+                    let _ = kd.to_kservice(rg, sv);
+                    let _ = format!("{:?} {:?} {:?} {:?} {:?}", kd, kr, ks, kg, (a.as_ref() == b.as_ref(), b.as_ref() == c.as_ref()));
+                    n += 1;
+                }
+            }
+        }
         for len in 0..60 {
             let s = "k".repeat(len);
             let _ = KSecretKey::<44>::from_str(&s).map(|k| format!("{} {:?}", k, k));
@@ -779,6 +920,9 @@ pub fn run(tier: Tier) -> i32 {
         }
         if s == 2 {
             presigned_unicode(&mut t, seed, tier.n(2000, 100_000));
+        }
+        if s == 3 {
+            extreme_years(&mut t, seed, tier.n(2000, 100_000));
         }
         if s == 1 {
             direct_api(&mut t, seed, tier.n(3000, 1_000_000));
@@ -837,10 +981,11 @@ pub fn run(tier: Tier) -> i32 {
     ctx.gate("hostile cases executed (admitted by the http crate)", tally.get("executed/hostile"), tier.n(50_000, 6_000_000));
     ctx.gate("validly signed requests with 1–3 byte-level edits executed", tally.get("executed/mutated-valid"), tier.n(50_000, 6_000_000));
     ctx.gate("presigned requests with non-ASCII digits / text in the authentication parameters", tally.get("executed/presigned-unicode"), tier.n(1500, 50_000));
+    ctx.gate("requests in years −1 / 10000 (UTC) that travelled as far as the key provider", tally.get("extreme_year_reached_key_lookup"), tier.n(300, 15_000));
     ctx.gate("charset labels executed", tally.get("charset_labels_executed"), LABELS.len() as u64 + 9);
     ctx.gate("heavy cases (≥ 60 KiB bodies, limit-length URIs) completed in the child process, folding on", tally.get("heavy_fold_on"), 25);
     ctx.gate("heavy cases completed, folding off", tally.get("heavy_fold_off"), 25);
-    ctx.gate("public builders / conversions / formatting calls", tally.get("stable_api_calls"), 70);
+    ctx.gate("public builders / conversions / formatting calls", tally.get("stable_api_calls"), 120);
     if cfg!(feature = "unstable-api") {
         ctx.gate("authenticators built directly and validated", tally.get("direct/authenticator"), tier.n(3000, 1_000_000));
     }
@@ -854,7 +999,7 @@ pub fn run(tier: Tier) -> i32 {
     }
     let rep = Report {
         level: "exploration",
-        rule: "Panic monitor at the harness boundary (catch_unwind around every poll of the validation future and every direct API call, panic hook recording message and location, poll budget for hangs) over W-hostile: dictionary-guided and random URIs (origin, absolute, authority and asterisk forms), header multisets with many Authorization / date / token / content-type duplicates, TAB and 0x80–0xFF bytes, bodies incl. invalid UTF-8 and ISO-2022 / UTF-16 escape fragments, all option and requirement combinations (empty, non-ASCII, pseudo-header names), extreme server clocks (chrono MIN/MAX, years 0/1/9999), provider scripts with delays and errors; every WHATWG charset label × 7 body shapes with folding on; the mixed corpus of the other checks; direct calls of the canonicalisers and of SigV4Authenticator's builder / prevalidate / validate_signature with arbitrary credentials, timestamps and Duration::{MIN,MAX}; builders with missing fields, error conversions (50-deep nested boxes), Debug/Display of everything. Heavy shapes (form bodies straddling the 65 534-byte URI limit, 1 MiB bodies, 20 000 parameters, limit-length and 32 000-segment URIs) run in a child process whose exit status is the oracle. Thorough adds ASan, valgrind memcheck and Miri runs of the same generators. Distinct = distinct executed cases by hash.".into(),
+        rule: "Panic monitor at the harness boundary (catch_unwind around every poll of the validation future and every direct API call, panic hook recording message and location, poll budget for hangs) over W-hostile: dictionary-guided and random URIs (origin, absolute, authority and asterisk forms), header multisets with many Authorization / date / token / content-type duplicates, TAB and 0x80–0xFF bytes, bodies incl. invalid UTF-8 and ISO-2022 / UTF-16 escape fragments, all option and requirement combinations (empty, non-ASCII, pseudo-header names), extreme server clocks (chrono MIN/MAX, years 0/1/9999), provider scripts with delays and errors; every WHATWG charset label × 7 body shapes with folding on; the mixed corpus of the other checks; direct calls of the canonicalisers and of SigV4Authenticator's builder / prevalidate / validate_signature with arbitrary credentials, timestamps and Duration::{MIN,MAX}; builders with missing fields, error conversions (50-deep nested boxes), Debug/Display of everything, all ten key-derivation routes for 13 dates across chrono's whole range (years −262143…262142) × 4 region/service shapes; requests whose UTC year is −1 or 10000 (four-digit year in a local offset, server clock across the year boundary, scope date rendered as the library renders such years) driven as far as the key provider, which derives with the library's own chain. Heavy shapes (form bodies straddling the 65 534-byte URI limit, 1 MiB bodies, 20 000 parameters, limit-length and 32 000-segment URIs) run in a child process whose exit status is the oracle. Thorough adds ASan, valgrind memcheck and Miri runs of the same generators. Distinct = distinct executed cases by hash.".into(),
         assumptions: vec!["unescape_uri_encoding and get_string_to_sign are documented to require validated input and are excluded".into(), "only what the http crate's constructors admit reaches the library".into()],
         extra: J::obj().set("calibrated_vectors", J::i(pre.unwrap_or(0) as i64)).set("sanitizers", san),
     };
